@@ -26,7 +26,7 @@ import (
 type Params = prio3shim.Params
 
 type Report struct {
-	Meas  uint64 `json:"meas"` // seed of the measurement
+	Meas  uint64 `json:"meas"`           // seed of the measurement
 	Edge  string `json:"edge,omitempty"` // "" | zero | max
 	Fault string `json:"fault,omitempty"`
 	Agg   int    `json:"agg,omitempty"` // aggregator whose link is faulty
@@ -671,9 +671,9 @@ func main() {
 		},
 		Components: map[string]string{
 			"vdaf/prio3 count, sum, sumvec, histogram, mhcv (shard, prep, aggregate, unshard, all marshalers)": "real",
-			"links client->aggregators, aggregator<->aggregator, aggregators->collector":                      "stub: simulated transport (marshal, corrupt, replace, lose)",
-			"aggregator state between rounds":                                                                 "stub: simulated disk (PrepState marshalled)",
-			"plain aggregates": "model: integer arithmetic",
+			"links client->aggregators, aggregator<->aggregator, aggregators->collector":                       "stub: simulated transport (marshal, corrupt, replace, lose)",
+			"aggregator state between rounds": "stub: simulated disk (PrepState marshalled)",
+			"plain aggregates":                "model: integer arithmetic",
 		},
 		Directed: directed,
 		Gen:      gen,
